@@ -267,7 +267,7 @@ func shortPath(p string) string {
 	if i := strings.Index(p, "/pkg/mod/"); i >= 0 {
 		return p[i+9:]
 	}
-	return strings.TrimPrefix(p, "/repo/")
+	return strings.TrimPrefix(p, repoDir+"/")
 }
 
 // visitInstr interprets one instruction. Returns false after a Return.
